@@ -82,6 +82,30 @@ ARG = {
     'TRAILSP': [b' '],
     'BARELF': [b'\n'],
     'LONG': [b'a' * 30000, b'"' + b'b' * 30000 + b'"'],
+    # tokens of the grammar-shaped lines
+    'NUM_DIGITS': [b'9' * 5000, b'1' + b'0' * 4400],       # beyond Python's int digit limit
+    'LIT_DIGITS': [b'{' + b'9' * 5000 + b'+}', b'{' + b'1' * 4400 + b'}'],
+    'CHARSET_ODD': [b'CHARSET undefined ALL', b'CHARSET "\xff" ALL', b'CHARSET idna SUBJECT x',
+                    b'CHARSET rot13 TEXT x', b'CHARSET hex BODY zz', b'CHARSET base64 TEXT eA==',
+                    b'CHARSET utf-16 SUBJECT abc', b'CHARSET punycode FROM x-',
+                    b'CHARSET unicode_escape TEXT "\\x"', b'CHARSET {3+}\r\nX\nY ALL',
+                    b'CHARSET "" ALL', b'CHARSET utf-7 SUBJECT +', b'CHARSET zlib TEXT x'],
+    'CHARSET_8BIT': [b'CHARSET utf-8 HEADER "S\xc3\xbcb" x', b'CHARSET utf-8 SUBJECT {2+}\r\n\xc3\xa9',
+                     b'CHARSET utf-8 TEXT {2+}\r\n\xff\xfe', b'CHARSET latin-1 BODY {1+}\r\n\xe9',
+                     b'CHARSET us-ascii FROM {2+}\r\n\xc3\xa9', b'CHARSET utf-8 KEYWORD \xc3\xa9',
+                     b'CHARSET utf-8 OR FROM {1+}\r\n\xff TO x'],
+    'STATUSLIST': [b'(MESSAGES UIDNEXT)', b'(MESSAGES RECENT UIDNEXT UIDVALIDITY UNSEEN)'],
+    'LIT_MSG': [b'{26+}\r\nSubject: t\r\n\r\nhello you\r\n', (b'{11}', b'A: b\r\n\r\nxy\n')],
+    'MBX_OTHER': [b'Sent', b'Trash', b'"Sent"'],
+    'W_FETCH': [b'FETCH', b'fetch'], 'W_STORE': [b'STORE'], 'W_COPY': [b'COPY'],
+    'W_MOVE': [b'MOVE'], 'W_SEARCH': [b'SEARCH'], 'W_EXPUNGE': [b'EXPUNGE'],
+    'SASL_MECH': [b'PLAIN', b'LOGIN', b'plain'],
+    'ENABLE_ARG': [b'CONDSTORE', b'UTF8=ACCEPT'],
+    'ZONE_ODD': [b'"01-Jan-2020 00:00:00 +010030"', b'"01-Jan-2020 00:00:00 -9959"',
+                 b'" 1-Jan-2020 00:00:00 +2400"', b'"01-jan-2020 23:59:60 +0000"'],
+    'SECTION_ODDNAME': [b'BODY.PEEK[HEADER.FIELDS ({3+}\r\nA\nB)]', b'BODY[HEADER.FIELDS ("a\\"b")]',
+                        b'BODY.PEEK[HEADER.FIELDS ({3+}\r\nA\x00B X)]', b'BODY[HEADER.FIELDS.NOT ("\xc3\xa9")]',
+                        b'BODY[1.HEADER.FIELDS ({1+}\r\n\r)]'],
     # managesieve
     'SCRIPT_OK': [b'{6+}\r\nkeep;\n', b'"keep;"'],
     'SCRIPT_BAD': [b'{5+}\r\nbogus', b'"if"'],
@@ -115,15 +139,21 @@ LINE = {
 }
 
 
-def concretise_line(tokens, rng) -> list:
+def variants(tokens) -> int:
+    """how many concretisations it takes to use every representative of every token once"""
+    return max([1] + [len(ARG[t]) for t in tokens[1:]])
+
+
+def concretise_line(tokens, rng, variant: int | None = None) -> list:
     """-> chunks: list of bytes; a chunk boundary is where the client waits for a
-    continuation request before going on (synchronising literal)."""
+    continuation request before going on (synchronising literal).  variant k: the
+    k-th representative (cyclically) of every token instead of a random one."""
     word = tokens[0]
     cur = bytearray(word.encode() if rng.random() < 0.8 else word.lower().encode())
     chunks = []
     glue = False
     for t in tokens[1:]:
-        v = rng.choice(ARG[t])
+        v = rng.choice(ARG[t]) if variant is None else ARG[t][variant % len(ARG[t])]
         if t == 'NOSPACE':
             glue = True
             continue
@@ -145,6 +175,67 @@ def concretise_line(tokens, rng) -> list:
     return chunks
 
 
+HDRVAL = {
+    'plain': [b'plain value'],
+    'empty': [b''],
+    'ws': [b'   ', b'\t'],
+    'eightbit': [b'caf\xe9 \xff\xfe', b'\xc3\xa9t\xc3\xa9'],
+    'nul': [b'a\x00b'],
+    'barecr': [b'a\rb', b'a\r'],
+    'encword': [b'=?utf-8?B?w6k=?= =?iso-8859-1?Q?=E9?=', b'=?utf-8?q?J=C3=B6rg?= <j@example.com>'],
+    'encword_bad': [b'=?bogus?X?zz?=', b'=?utf-8?q?J=F6rg?= <j@example.com>', b'=?utf-8?B?!!!?=',
+                    b'=?utf-8?B?w6k', b'=?unknown-8bit?q?=FF?='],
+    'addr1': [b'A B <a@example.com>', b'a@example.com'],
+    'addr_multi': [b'a@b, c@d', b'A <a@b.c>, "D, E" <d@e.f>, g@h.i'],
+    'addr_group': [b'Team: a@b, C <c@d>;', b'undisclosed-recipients:;, x@y'],
+    'addr_group_empty': [b'Nobody:;', b':;'],
+    'addr_8bit': [b'"J\xf6rg" <j@example.com>', b'J\xc3\xb6rg <j\xf6@ex\xe4mple.com>'],
+    'addr_broken': [b'<<>>@, "x', b'a@b, (comment, <c@d>', b'@', b'<a@b', b'a b c', b'"\\" <>'],
+    'addr_route': [b'<@relay1,@relay2:a@b>', b'A (comment (nested)) <a(c)@b(d)>'],
+    're_deep': [b'Re: ' * 3000 + b'x', b'Fwd: ' * 2500 + b'Re: [list] ' * 200 + b'y',
+                b'<' * 3000 + b'a@b' + b'>' * 3000],
+    'long': [b'z' * 20000, b'word ' * 4000],
+    'folded': [b'a\r\n b\r\n\tc\r\n  d', b'\r\n folded-from-start'],
+    'quoted_odd': [b'"unterminated', b'"a\\"b" c"', b'\\', b'"\\'],
+    'date_ok': [b'Mon, 1 Jan 2024 00:00:00 +0000', b'1 Jan 24 00:00 GMT'],
+    'date_bad': [b'not a date', b'Mon, 99 Foo 99999 99:99:99 +9999', b'1 Jan 0001 00:00:00 -2359',
+                 b'31 Dec 9999 23:59:59 +2359', b'1 Jan 2024 00:00:00 +010030'],
+    'msgid': [b'<id1@example.com>', b'<a@b> <c@d>'],
+    'msgid_bad': [b'<unterminated', b'no brackets', b'<>', b'<a@b><c@d', b'<' + b'x' * 5000 + b'@y>'],
+    'ct_multi': [b'multipart/mixed; boundary="BB"'],
+    'ct_multi_nobound': [b'multipart/mixed', b'multipart/mixed; boundary=""', b'multipart/; boundary=BB'],
+    'ct_rfc822': [b'message/rfc822', b'message/global'],
+    'ct_params_odd': [b'text/plain; charset="x\\"y"; a=b', b'text/', b';;;=', b'text/plain; charset',
+                      b'text/plain; name*=utf-8\'\'%E9%FF; name*0="a"; name*1="b"', b'/', b'text/plain;' + b' a=b;' * 500],
+    'cte_b64': [b'base64'],
+    'cte_qp': [b'quoted-printable'],
+    'cte_unknown': [b'x-foo', b'BASE64 (comment)', b'7bit; x=y', b''],
+    'disp': [b'attachment; filename="x.txt"', b'inline'],
+    'disp_odd': [b'; filename=x', b'attachment; filename*=utf-8\'\'%FF', b'attachment; filename="a\\"b\r\n c"',
+                 b'attachment; =;;'],
+    'lang_list': [b'en, fr (french), de', b'en'],
+    'semicolons': [b';;;;', b'a;b;c=;=d'],
+    'comment': [b'(only a comment)', b'(unterminated', b'((nested) (comment)) value'],
+    'utf8': [b'\xe2\x82\xac \xf0\x9f\x98\x80 <a@b>', b'\xef\xbb\xbfbom'],
+}
+
+
+def concretise_hdr(triple, rng) -> bytes:
+    """<<header name, value class, frame>> -> message bytes"""
+    name, val, frame = triple
+    hdr = name.encode() + b': ' + rng.choice(HDRVAL[val]) + b'\r\n'
+    inner = hdr + b'X-Test: value\r\n\r\nhello world\r\n'
+    if name.startswith('Content-') or name == 'MIME-Version':
+        # the body must make sense for the structured cases too
+        inner = hdr + b'\r\n--BB\r\n\r\naGVsbG8=\r\n--BB--\r\n'
+    if frame == 'top':
+        return inner
+    if frame == 'part':
+        return (b'Subject: outer\r\nContent-Type: multipart/mixed; boundary="OUT"\r\n\r\n'
+                b'--OUT\r\n' + inner + b'\r\n--OUT\r\nContent-Type: text/plain\r\n\r\nsecond\r\n--OUT--\r\n')
+    return b'Subject: outer\r\nContent-Type: message/rfc822\r\n\r\n' + inner
+
+
 def concretise_msg(tokens, rng) -> bytes:
     return b''.join(rng.choice(LINE[t]) for t in tokens)
 
@@ -152,14 +243,22 @@ def concretise_msg(tokens, rng) -> bytes:
 import re as _re
 
 _LITPLUS = _re.compile(rb'\{(\d+)\+\}\r?$')
+_LITSYNC = _re.compile(rb'\{(\d+)\}\r?\n$')
 
 
-def logical_lines(chunk: bytes) -> int:
+def announced(chunk: bytes) -> int:
+    """octets of the synchronising literal this chunk ends by announcing (0: none)"""
+    m = _LITSYNC.search(chunk[-40:])
+    return int(m.group(1)) if m and len(m.group(1)) < 12 else 0
+
+
+def logical_lines(chunk: bytes, skip: int = 0) -> int:
     """number of complete lines the SERVER's reader assembles from this chunk:
     a line ending in {n+} continues with n literal bytes and the following line
-    (RFC 7888).  -1 if the chunk ends inside an announced literal."""
+    (RFC 7888).  -1 if the chunk ends inside an announced literal.  skip: the
+    chunk starts with that many octets of a synchronising literal."""
     n = 0
-    pos = 0
+    pos = min(skip, len(chunk))
     while pos < len(chunk):
         nl = chunk.find(b'\n', pos)
         if nl < 0:
@@ -168,6 +267,11 @@ def logical_lines(chunk: bytes) -> int:
         m = _LITPLUS.search(seg)
         pos = nl + 1
         if m:
+            if len(m.group(1)) > 12:
+                # a length no server can honour (nor Python convert): the line is refused as
+                # it stands, nothing is read as literal data
+                n += 1
+                continue
             pos += int(m.group(1))
             if pos > len(chunk):
                 return -1
@@ -326,13 +430,15 @@ def run_line(w: World, state: str, chunks: list, *, service: str = 'imap', name:
                     break
                 pending = list(chunks)
                 first = True
+                skip = 0
                 word = chunks[0].split(b' ')[0].split(b'\r')[0].upper()
                 while pending:
                     chunk = pending.pop(0)
                     if first and service == 'imap':
                         chunk = (tagfmt % rep) + b' ' + chunk
                     first = False
-                    k = logical_lines(chunk)
+                    k = logical_lines(chunk, skip)
+                    skip = announced(chunk)
                     if k < 0:
                         k = 0           # the client stopped inside a literal it announced
                     for _ in range(k):
